@@ -96,7 +96,32 @@ def pool(seed):
     P['rx'] = [t for t in P['rx'] if rx.size_iter(t) <= 40]
     from vt.props.c11 import random_tm
     P['tm'] = [random_tm(rng, rng.randint(1, 3), rng.randint(0, 1), rng.randint(1, 2), '_', p_def=0.8) for _ in range(3)]
+    add_twins(P)
     return P
+
+
+def add_twins(P):
+    """near-twins: objects that differ from a pool object in exactly one field (start variable / initial state /
+    accepting set).  A result cached under a PARTIAL identity of the argument (printed rules, transition table)
+    then shows up as a dependence on the order of earlier calls."""
+    R = P['dfa'][2]
+    P['dfa'].append((R[0], R[1], R[2], R[0][-1], R[4]))
+    P['dfa'].append((R[0], R[1], R[2], R[3], tuple(q for q in R[0] if q not in R[4])))
+    (N, eps, kind) = P['nfa'][2]
+    P['nfa'].append(((N[0], N[1], N[2], N[0][-1], N[4]), eps, kind))
+    P['nfa'].append(((N[0], N[1], N[2], N[3], tuple(q for q in N[0] if q not in N[4])), eps, kind))
+    RP = P['pda'][0]
+    P['pda'].append((RP[0], RP[1], RP[2], RP[3], RP[0][-1], RP[5]))
+    P['pda'].append((RP[0], RP[1], RP[2], RP[3], RP[4], tuple(q for q in RP[0] if q not in RP[5])))
+    for RG in list(P['cfg'][:3]):
+        P['cfg'].extend(cfgg.start_twins(RG)[:2])
+    for RG in list(P['cnf'][:2]):
+        tw = [t for t in cfgg.start_twins(RG) if cf.is_cnf(t)]
+        P['cnf'].extend(tw[:1])
+    RT = P['tm'][0]
+    others = [q for q in RT[0] if q not in (RT[4], RT[5], RT[6])]
+    if others:
+        P['tm'].append((RT[0], RT[1], RT[2], RT[3], others[0], RT[5], RT[6], RT[7]))
 
 
 def random_pool(rng):
@@ -367,6 +392,14 @@ def check_case(rec, case):
     from gambatools.global_settings import GambaTools
     if case['part'] == 'battery':
         C = catalogue(pool(rec.seed))
+        # the ORDER of the calls differs between interpreters (0 natural, 1 reversed, 2/3 two fixed shuffles), the
+        # hash seed differs between all of them: the parent compares the digests of every call across interpreters
+        order_id = rec.shard % 4
+        if order_id == 1:
+            C = list(reversed(C))
+        elif order_id in (2, 3):
+            random.Random('C19-order/%d' % order_id).shuffle(C)
+        rec.extra['battery_order'] = order_id
         rec.note_case(case, 'fixed_battery', True)
         first = {}
         for e in C:
@@ -416,20 +449,31 @@ def check_case(rec, case):
 
 
 def cross_shard(results):
-    """parent side: the fixed battery must give the same digest in every interpreter"""
+    """parent side: the fixed battery must give the same digest in every interpreter (they differ in
+    PYTHONHASHSEED and in the order in which the calls were made)"""
     by = {}
     vals = {}
     for d in results:
         ex = d.get('extra') or {}
+        order = ex.get('battery_order')
         for k, v in (ex.get('battery_digests') or {}).items():
-            by.setdefault(k, {}).setdefault(v, []).append(d['hashseed'])
+            by.setdefault(k, {}).setdefault(v, []).append((d['hashseed'], order))
             vals.setdefault(k, {})[v] = (ex.get('battery_values') or {}).get(k)
     out = []
     for k, m in by.items():
         if len(m) > 1:
             fname = k.split('#')[0].split('/')[0]
-            out.append(('hash_seed:%s' % fname, '%s gives different results in interpreters with different PYTHONHASHSEED' % fname,
-                        {'call': k, 'results_by_hashseed': {str(v[:3]): vals[k][h] for h, v in m.items()}}))
+            # same call order but different results -> the hash seed; otherwise the order of earlier calls
+            per_order = {}
+            for dig, lst in m.items():
+                for (hs, order) in lst:
+                    per_order.setdefault(order, set()).add(dig)
+            if any(len(v) > 1 for v in per_order.values()):
+                key, why = 'hash_seed:%s' % fname, 'in interpreters with different PYTHONHASHSEED (same order of calls)'
+            else:
+                key, why = 'history:%s' % fname, 'depending on the order of the earlier library calls in the interpreter'
+            out.append((key, '%s gives different results %s' % (fname, why),
+                        {'call': k, 'results': {str(v[:4]): vals[k][h] for h, v in m.items()}}))
     return out, {'battery_calls_compared': len(by), 'interpreters_compared': len(results)}
 
 
